@@ -661,6 +661,16 @@ pub fn process<I: BufRead, O: Write>(
                                     }
                                 }
 
+                                // A file that (directly or not) includes itself would recurse forever
+                                if context.includes_stack.len() >= 200 {
+                                    return Err(Error::Syntax {
+                                        filename: filename.clone(),
+                                        included_in: included_in.clone(),
+                                        line,
+                                        msg: "#include nested too deeply".to_string(),
+                                    });
+                                }
+
                                 // Process file
                                 let f = File::open(path)?;
                                 let assembler = fname.ends_with(".inc")
